@@ -139,7 +139,13 @@ def handleTrie (es : List (Bytes × Bytes)) (method path : Bytes) (out : List St
   let mstr := if permitted.isEmpty then "none" else "found " ++ hexList permitted
   match out with
   | ["none"] =>
-    if permitted.isEmpty then "OK b=trie-none" else s!"DIFF model={mstr}"
+    -- soundness is the property; completeness does NOT hold (greedy descent, `C20_trie_incomplete_fails`): a miss although
+    -- an added template matches is reported in the histogram only
+    let anyMatch := es.any (fun (m, t) => m == method && (match specParse t with
+      | some tm => matchesB tm.mkeys tm.verbStr (splitOnByte cSlash (trimSlash path))
+      | none => false))
+    if permitted.isEmpty then (if anyMatch then "OK nt b=trie-none-though-match" else "OK b=trie-none")
+    else s!"DIFF model={mstr}"
   | ["found", hx] =>
     match parseHex hx with
     | none => "BAD trie hex"
